@@ -79,6 +79,23 @@ def strip_comments(src):
     return "".join(out)
 
 
+def outside_section_declarations(src):
+    """Variable / Hypothesis / Context declarations outside any Section (they would be axioms)"""
+    depth = 0
+    out = []
+    for sentence in re.split(r"\.\s", src):
+        t = sentence.strip()
+        if re.match(r"(Section|Module Type)\s+\w+", t):
+            depth += 1
+        elif re.match(r"End\s+\w+", t) and depth > 0:
+            depth -= 1
+        elif re.match(r"Module\s+\w+\s*$", t):
+            depth += 0
+        elif depth == 0 and re.match(r"(Variable|Variables|Hypothesis|Hypotheses|Context)\b", t):
+            out.append("declaration outside a section: " + t[:60])
+    return out
+
+
 def coq_cone(target_v):
     """Source files (relative to coq/) the target depends on, via coqdep."""
     seen = set()
@@ -125,6 +142,7 @@ def build_coq(prop, tier, report):
         src = strip_comments(open(os.path.join(COQ, f)).read())
         for m in HYGIENE.finditer(src):
             bad.append("%s: %s" % (f, m.group(0)))
+        bad += ["%s: %s" % (f, x) for x in outside_section_declarations(src)]
         obligations += len(re.findall(r"\bQed\.", src))
         if f.startswith("Props/"):
             names += re.findall(r"^\s*Theorem\s+(\w+)", src, flags=re.M)
